@@ -69,3 +69,79 @@ package serf
 //@   ensures ltime_monotone [C02]: forall(func(k string) bool { o, ok := s.members[k]
 //@       return ok ==> o.statusLTime >= old(o.statusLTime) })
 //@ end
+
+// ---------------------------------------------------------------- failed / left lists (C15)
+
+//@ pure func inList(l []*memberState, m *memberState) bool {
+//@   return exists(func(i int) bool { return 0 <= i && i < len(l) && l[i] == m })
+//@ }
+//@ pure func wfList(l []*memberState) bool {
+//@   return (nilSlice(l) ==> len(l) == 0) && len(l) >= 0 &&
+//@     forall(func(i int) bool { return 0 <= i && i < len(l) ==> l[i] != nil }) &&
+//@     forall2(func(i, j int) bool { return 0 <= i && i < j && j < len(l) ==> l[i].Name != l[j].Name })
+//@ }
+
+//@ func removeOldMember(lst []*memberState, name string) (ret []*memberState)
+//@   requires wf: wfList(lst)
+//@   ensures wf [C15]: wfList(ret)
+//@   ensures in_place [C15]: sameArray(ret, lst) && len(ret) <= len(lst)
+//@   ensures frame [C15]: elemsUnchangedExcept(lst)
+//@   ensures removed [C15]: forall(func(m *memberState) bool {
+//@       return inList(ret, m) == (old(inList(lst, m)) && m.Name != name) })
+//@   ensures len_exact [C15]: len(ret) == len(lst) - ite(exists(func(i int) bool {
+//@       return 0 <= i && i < len(lst) && old(lst[i].Name) == name }), 1, 0)
+//@   loop 1 vars rangeindex int
+//@   loop 1 invariant scanned: -1 <= rangeindex && rangeindex < len(lst) &&
+//@       forall(func(j int) bool { return 0 <= j && j <= rangeindex ==> lst[j].Name != name })
+//@ end
+
+// wfSerf: the membership bookkeeping invariant (C15). The failed (left) list
+// holds exactly the members whose status is failed (left), without duplicates.
+//@ pure func listMatches(s *Serf, l []*memberState, st MemberStatus) bool {
+//@   return wfList(l) &&
+//@     forall(func(i int) bool { return 0 <= i && i < len(l) ==> s.members[l[i].Name] == l[i] && l[i].Status == st }) &&
+//@     forall(func(k string) bool { m, ok := s.members[k]; return ok && m.Status == st ==> inList(l, m) })
+//@ }
+//@ pure func wfSerf(s *Serf) bool {
+//@   return wfMembers(s) && listMatches(s, s.failedMembers, StatusFailed) && listMatches(s, s.leftMembers, StatusLeft) &&
+//@     disjoint(s.failedMembers, s.leftMembers)
+//@ }
+
+// reapEventSent: exactly one EventMemberReap for m was appended to the event channel.
+//@ pure func lastEventIs(s *Serf, n int, ty EventType, name string) bool {
+//@   e, ok := sentAt(s.config.EventCh, n).(MemberEvent)
+//@   return ok && e.Type == ty && len(e.Members) == 1 && e.Members[0].Name == name
+//@ }
+
+//@ func (s *Serf) eraseNode(m *memberState)
+//@   requires wf: wfMembers(s) && m != nil
+//@   let _, present := s.members[m.Name]
+//@   ensures erased [C15]: !present
+//@   ensures others_kept [C15]: forall(func(k string) bool { o, ok := s.members[k]; oo, ook := old(s.members)[k]
+//@       return k != m.Name ==> ok == old(ook) && (ok ==> o == old(oo)) })
+//@   ensures wf [C15]: wfMembers(s)
+//@   ensures one_reap_event [C15,C16]: s.config.EventCh != nil ==>
+//@       sentN(s.config.EventCh) == old(sentN(s.config.EventCh))+1 && lastEventIs(s, old(sentN(s.config.EventCh)), EventMemberReap, m.Name)
+//@   ensures no_other_events [C15,C16]: forall(func(ch chan<- Event) bool { return ch != s.config.EventCh || ch == nil ==> sentN(ch) == old(sentN(ch)) })
+//@ end
+
+//@ func (s *Serf) handlePrune(member *memberState)
+//@   requires wf: wfSerf(s) && member != nil && s.members[member.Name] == member
+//@   requires status: member.Status == StatusLeaving || member.Status == StatusLeft
+//@   let _, present := s.members[member.Name]
+//@   ensures erased [C15]: !present
+//@   ensures others_kept [C15]: forall(func(k string) bool { o, ok := s.members[k]; oo, ook := old(s.members)[k]
+//@       return k != member.Name ==> ok == old(ook) && (ok ==> o == old(oo)) })
+//@   ensures wf_members [C15]: wfMembers(s)
+//@   ensures wf_failed_list [C15]: wfList(s.failedMembers)
+//@   ensures wf_failed_a [C15]: forall(func(i int) bool { l := s.failedMembers; return 0 <= i && i < len(l) ==> s.members[l[i].Name] == l[i] && l[i].Status == StatusFailed })
+//@   ensures wf_failed_b [C15]: forall(func(k string) bool { m, ok := s.members[k]; return ok && m.Status == StatusFailed ==> inList(s.failedMembers, m) })
+//@   ensures wf_left_list [C15]: wfList(s.leftMembers)
+//@   ensures wf_left_a [C15]: forall(func(i int) bool { l := s.leftMembers; return 0 <= i && i < len(l) ==> s.members[l[i].Name] == l[i] && l[i].Status == StatusLeft })
+//@   ensures wf_left_b [C15]: forall(func(k string) bool { m, ok := s.members[k]; return ok && m.Status == StatusLeft ==> inList(s.leftMembers, m) })
+//@   ensures wf_disjoint [C15]: disjoint(s.failedMembers, s.leftMembers)
+//@   ensures frame_lists [C15]: elemsUnchangedExcept(old(s.leftMembers)) && sameSlice(s.failedMembers, old(s.failedMembers)) &&
+//@       sameArray(s.leftMembers, old(s.leftMembers))
+//@   ensures one_reap_event [C15,C16]: s.config.EventCh != nil ==>
+//@       sentN(s.config.EventCh) == old(sentN(s.config.EventCh))+1 && lastEventIs(s, old(sentN(s.config.EventCh)), EventMemberReap, member.Name)
+//@ end
